@@ -74,6 +74,12 @@ CLAIMED = {
             "misses; the expected order and first-match results are computed by the model, not by the lookup code. The "
             "upper-snake-case constants are probed by compiling one program per unit (E2).",
             TRUST_E1, "5.9"),
+    "C11": (E2, "exhaustive enumeration of a bounded grammar of well-formed #[quantity] definitions (all attribute permutations, literal spellings, prefix/doc patterns, kinds); each compiled with the real macro and executed, its registry dump and operator corpus compared with a Python model of the declaration",
+            "720 (quick) / ~3 400 (thorough) definitions per back-end, every one compiled and executed against the real crate; "
+            "names, symbols, prefixes, scales (exact literal value in the amount type), iteration order incl. ties, "
+            "constants, lookups, constructors and all operator families are compared with the model; the permutation "
+            "clause is checked on the observed dumps of each permutation group.",
+            "Trusted: the Python model of the documented macro behaviour (lib/defgen.py), rustc. Definitions outside the grammar G (more than 3 further units, other literal forms, identifier words of one letter or with digits) are not enumerated.", "5.11"),
     "C12": (E2, "exhaustive application of every defect class to every well-formed base definition of a bounded grammar; each malformed definition expanded / type-checked by rustc, verdict and error location compared with the expectation",
             "43 concrete defect forms covering every clause of the statement x 26 base definitions (all kinds, sizes, "
             "basic and derived) = 940 malformed definitions per back-end, plus tests/ui verbatim; each must carry an error "
